@@ -556,6 +556,24 @@ def c12d(ctx, tu):
                 ok = A["get_lock"] in names
                 ctx.ob("C12.d.lock", f.qe, ok, pattern=short_loc(e.get("loc", "")), unit=tu.name,
                        detail="" if ok else "lock object in %s is not obtained from get_lock()" % f.qe)
+    # ... and it is created exactly once however many threads arrive first: by the initialiser of a function-local
+    # static (which the language makes thread-safe), not by a test-and-assign of a static pointer
+    for fn in tu.find(A["get_lock"]):
+        if not fn.has_body:
+            continue
+        creates = [e for b, e in fn.events() if e["e"] in ("new", "call", "ctor") and
+                   SYNC_TYPE.search(re.sub(r"unique_lock<[^<>]*>", "", (e.get("type") or "") if e["e"] != "call" else ""))]
+        creates = [e for e in creates if e["e"] == "new" or "create_custom_recursive_mutex" in (e.get("q") or "")]
+        creates += [e for b, e in fn.events() if e["e"] == "call" and "create_custom_recursive_mutex" in (e.get("q") or "")]
+        statics = [e for b, e in fn.events() if e["e"] == "decl" and e.get("static")]
+        in_init = any(("'new'" in str(d.get("init")) or "create_custom_recursive_mutex" in str(d.get("init"))) for d in statics)
+        assigned = [e for b, e in fn.events() if e["e"] == "assign" and isinstance(e.get("lhs"), list) and
+                    lib.strip_casts(e["lhs"])[:1] == ["gvar"]]
+        if creates or statics:
+            ok = in_init and not assigned
+            ctx.ob("C12.d.once", A["get_lock"], ok, pattern=fn.pat, unit=tu.name, inst=fn.q,
+                   detail="" if ok else "the global mutex is created by a hand-written test-and-assign of a static: two threads "
+                   "that arrive first both construct it (and the second re-initialises a mutex the first may hold)")
     # the one lock is one per process: what get_lock() locks has static storage duration and is not thread_local
     for fn in tu.find(A["get_lock"]):
         if not fn.has_body:
